@@ -24,7 +24,7 @@ from nanoemoji.colors import Color
 from picosvg.svg_transform import Affine2D
 
 RED, BLUE, GREY = Color(255, 0, 0, 1.0), Color(0, 0, 255, 0.5), Color(9, 9, 9, 0.25)
-PALETTE = [Color(0, 0, 0, 1.0), RED, BLUE, GREY]
+PALETTE = [Color(0, 0, 0, 1.0), RED, BLUE, GREY]  # RC.STOPS uses RED and BLUE too
 P3 = "M800,100 L1000,100 L1000,300 L800,300 Z"
 
 
@@ -33,10 +33,11 @@ def replay_v0_layers(inp):
     painted in `third_colour`; COLRv0 must yield exactly three layers in source order."""
     A = Affine2D(*[float(inp.get(f"A{i}", (1, 0, 0, 1, 0, 0)[i])) for i in range(6)])
     same = inp["third_same_colour"]
+    fill = inp.get("fill", "solid")
     pairs = {(RC.font_space(RC.DONOR), RC.font_space(P3)): A}
     stubs = RC.ReuseStubs(lambda d: "shape" if d in (RC.font_space(RC.DONOR), RC.font_space(P3)) else d, lambda a, b: pairs.get((a, b)))
-    layers = [P.PaintGlyph(glyph=RC.DONOR, paint=P.PaintSolid(RED)), P.PaintGlyph(glyph=RC.OTHER, paint=P.PaintSolid(BLUE)),
-              P.PaintGlyph(glyph=P3, paint=P.PaintSolid(RED if same else GREY))]
+    layers = [P.PaintGlyph(glyph=RC.DONOR, paint=_first_paint(fill)), P.PaintGlyph(glyph=RC.OTHER, paint=P.PaintSolid(BLUE)),
+              P.PaintGlyph(glyph=P3, paint=_third_paint(fill, same, lambda n, lo=None, hi=None: float(inp.get(n, 0))))]
     ufo = RC.mk_ufo()
     try:
         with RC.reuse_shims(stubs, stub_transformed=False, stub_algebra=False):
@@ -45,17 +46,59 @@ def replay_v0_layers(inp):
     except Exception as e:
         return {"raised": repr(e)}
     want_cols = [RED, BLUE, RED if same else GREY]
+    if fill != "solid":
+        # a gradient cannot be expressed: only the geometry is claimed (one layer per shape, each outline once, in place)
+        if len(out) != 3 or not all(0 <= i < len(PALETTE) for _, i in out):
+            return {"layers": out, "A": list(A)}
+        leaves = [lf for layer in cg.painted_layers for lf in ps.denote(layer)]
+        for (gname, _), lf in zip(out, leaves):
+            g = ufo[gname]
+            if g.components:
+                got = tuple(g.components[0].transformation)
+                if len(g.components) != 1 or g.components[0].baseGlyph != lf.glyph or len(g) or max(abs(float(x) - float(y)) for x, y in zip(got, lf.M)) > 2 ** -14 + 1e-9:
+                    return {"layer": gname, "component": repr(g.components), "source placement": [float(v) for v in lf.M]}
+            elif gname != lf.glyph or max(abs(float(x) - float(y)) for x, y in zip(lf.M, ps.IDENT)) > 1e-9:
+                return {"layer": gname, "source glyph": lf.glyph, "source placement": [float(v) for v in lf.M]}
+        return None
     if len(out) != 3 or [PALETTE[i] for _, i in out] != want_cols:
         return {"layers": out, "expected colours": [repr(c) for c in want_cols], "A": list(A)}
     return None
+
+
+# the gradient's own numbers are concrete (the gradient is C06's subject; here only the outline placement is claimed)
+_GRAD_NUMS = {"p0x": 820, "p0y": 120, "p1x": 980, "p1y": 140, "p2x": 800, "p2y": 280, "c0x": 900, "c0y": 200, "c1x": 910, "c1y": 190, "r0": 10, "r1": 120}
+
+
+def _first_paint(fill):
+    if fill == "solid":
+        return P.PaintSolid(RED)
+    from picosvg.geometric_types import Point
+
+    if fill == "linear":
+        return P.PaintLinearGradient(stops=RC.STOPS, p0=Point(100, 100), p1=Point(300, 100), p2=Point(100, 300))
+    return P.PaintRadialGradient(stops=RC.STOPS, c0=Point(200, 200), c1=Point(200, 200), r0=0, r1=150)
+
+
+def _third_paint(fill, same, R):
+    """The paint of the third (congruent) shape; `R(name, lo, hi)` supplies its numbers (symbolic or witness)."""
+    if fill == "solid":
+        return P.PaintSolid(RED if same else GREY)
+    from picosvg.geometric_types import Point
+
+    if fill == "linear":
+        return P.PaintLinearGradient(stops=RC.STOPS, p0=Point(R("p0x"), R("p0y")), p1=Point(R("p1x"), R("p1y")), p2=Point(R("p2x"), R("p2y")))
+    return P.PaintRadialGradient(stops=RC.STOPS, c0=Point(R("c0x"), R("c0y")), c1=Point(R("c1x"), R("c1y")), r0=R("r0", 0, 30000), r1=R("r1", 0, 30000))
 
 
 def job_v0_layers(jc):
     jc.encode(WF._ufo_colr_layers, WF._colr0_layers, WF._create_transformed_glyph, P.Paint.breadth_first)
     same = jc.params["third_same_colour"]
     ident = jc.params["identity"]
+    fill = jc.params.get("fill", "solid")
     inp = {f"A{i}": core.SymNum(z3.Real(f"A{i}")) for i in range(6)}
+    inp.update({} if fill == "solid" else _GRAD_NUMS)
     inp["third_same_colour"] = same
+    inp["fill"] = fill
     stubs0 = RC.ReuseStubs(lambda d: "shape" if d in (RC.font_space(RC.DONOR), RC.font_space(P3)) else d, lambda a, b: None)
 
     def body():
@@ -67,8 +110,8 @@ def job_v0_layers(jc):
             A = RC.sym_affine("A")
         pairs = {(RC.font_space(RC.DONOR), RC.font_space(P3)): A}
         stubs0.affine_for = lambda a, b: pairs.get((a, b))
-        layers = [P.PaintGlyph(glyph=RC.DONOR, paint=P.PaintSolid(RED)), P.PaintGlyph(glyph=RC.OTHER, paint=P.PaintSolid(BLUE)),
-                  P.PaintGlyph(glyph=P3, paint=P.PaintSolid(RED if same else GREY))]
+        layers = [P.PaintGlyph(glyph=RC.DONOR, paint=_first_paint(fill)), P.PaintGlyph(glyph=RC.OTHER, paint=P.PaintSolid(BLUE)),
+                  P.PaintGlyph(glyph=P3, paint=_third_paint(fill, same, lambda n, lo=None, hi=None: _GRAD_NUMS[n]))]
         ufo = RC.mk_ufo()
         cg = WF._migrate_paths_to_ufo_glyphs(RC.mk_color_glyph(ufo, "base", layers), GR.GlyphReuseCache(0.1))
         out = WF._ufo_colr_layers(0, PALETTE, cg)
@@ -87,7 +130,10 @@ def job_v0_layers(jc):
         conj = [z3.BoolVal(len(out) == 3 and len(leaves) == 3)]
         if len(out) == 3 and len(leaves) == 3:
             for (gname, cidx), lf, col in zip(out, leaves, want_cols):
-                conj.append(z3.BoolVal(PALETTE[cidx] == col))  # v0: alpha lives in the palette entry
+                if fill == "solid":
+                    conj.append(z3.BoolVal(PALETTE[cidx] == col))  # v0: alpha lives in the palette entry
+                else:
+                    conj.append(z3.BoolVal(isinstance(cidx, int) and 0 <= cidx < len(PALETTE)))
                 g = ufo[gname]
                 if g.components:
                     conj.append(z3.BoolVal(len(g.components) == 1 and g.components[0].baseGlyph == lf.glyph and len(g) == 0))
@@ -96,7 +142,7 @@ def job_v0_layers(jc):
                     conj.append(z3.BoolVal(gname == lf.glyph))
                     conj.append(ps.aff_eq(lf.M, ps.IDENT))
         jc.prove(r, z3.And(*conj), "COLRv0: one layer per shape in source z-order, each with its own colour+alpha from the palette, each outline placed once at its source position",
-                 inp, replay_v0_layers, key=f"C03:v0:layers:{'same' if same else 'diff'}")
+                 inp, replay_v0_layers, key=f"C03:v0:layers:{'same' if same else 'diff'}" + ("" if fill == "solid" else ":" + fill))
     jc.expect_reached("ok")
 
 
@@ -251,6 +297,11 @@ def jobs(tier):
     js = [Job("v0_layers[third same colour, identity reuse]", job_v0_layers, third_same_colour=True, identity=True),
           Job("v0_layers[third same colour]", job_v0_layers, third_same_colour=True, identity=False),
           Job("v0_layers[third other colour]", job_v0_layers, third_same_colour=False, identity=False),
+          # gradient-filled shapes ("for any source"): only the geometry is claimed. The reuse affine is the identity
+          # here; with a symbolic affine the gradient's own apply_transform/check_overflows multiply the paths of
+          # transformed() and the job does not finish in 10 min (measured; 5 min with an axis-aligned affine), so that product is left to C06's jobs.
+          Job("v0_layers[gradient-filled shapes, identical third: linear]", job_v0_layers, third_same_colour=True, identity=True, fill="linear"),
+          Job("v0_layers[gradient-filled shapes, identical third: radial]", job_v0_layers, third_same_colour=True, identity=True, fill="radial"),
           Job("colr0_layers[reused]", C06.job_colr0, which="colr0"),
           Job("glyf_components[reused]", C06.job_colr0, which="glyf"),
           Job("draw_glyph_extents", job_extents),
